@@ -55,6 +55,8 @@ def text_method(interp, recv, tg, name, args, kwargs):
             raise Unsupported("encode with symbolic charset")
         cs = charset.lower().replace("_", "-")
         if cs in ("utf-8", "utf8"):
+            if z3.is_true(S.is_ascii(ctx, t)):
+                return interp.mk("vbytes", t)
             # lone surrogates cannot be encoded; json.loads can produce them from \\ud800 escapes
             S.surrogate_facts(ctx, t)
             if errors == "strict" and ctx.branch(S.HasSurrogate(t)):
@@ -120,7 +122,12 @@ def text_method(interp, recv, tg, name, args, kwargs):
 
 
 def _sep_free(ctx, part, sep):
-    return ctx.entails(z3.Not(z3.Contains(part, sep)))
+    f = z3.Not(z3.Contains(part, sep))
+    if ctx.known(f):
+        return True
+    if S.is_rep_of(part, "=") and _lit(sep) not in (None, "="):
+        return True
+    return ctx.entails(f)
 
 
 def split(interp, t, sep, tg):
